@@ -1,5 +1,6 @@
 import CogentModel.Json
 import CogentModel.Model.Calculator
+import CogentModel.Model.Controller
 open CogentModel CogentModel.Calc
 
 /-- the integer hash-combine calc used by the correspondence harness:
@@ -79,8 +80,43 @@ def optJ : Option (List Int) → J
   | none => J.null
   | some l => J.ofList J.num l
 
+/-! ### ParameterController model -/
+
+def parseDefn (j : J) : Except String (Ctl.Defn Int) := do
+  match ← (← j.get "k").toStr with
+  | "leaf" => pure .leaf
+  | "derived" => do
+    let args ← (← j.get "args").toListOf J.toNat
+    let salt ← (← j.get "salt").toInt
+    let mult ← (← j.get "mult").toInt
+    pure (.derived args (fun xs => (hashCalc salt mult 0 0 xs).getD 0))
+  | s => throw s!"bad defn kind {s}"
+
+def parseCtlOp (j : J) : Except String (Ctl.Op Int) := do
+  match ← j.toList with
+  | [J.str "assign", k, v] => do pure (.assign (← k.toNat) (← v.toInt))
+  | [J.str "enter"] => pure .enter
+  | [J.str "exit"] => pure .exit
+  | [J.str "xexit"] => pure .xexit
+  | _ => throw "bad ctl op"
+
+def ctlSnap (g : Ctl.Graph Int) (s : Ctl.St Int) : J :=
+  J.obj [("values", J.ofList J.num ((List.range g.length).map s.values)),
+         ("changed", J.ofList J.ofNat ((List.range g.length).filter (fun k => s.changed.contains k))),
+         ("suspended", J.bool s.suspended), ("depth", J.ofNat s.stack.length)]
+
+def ctlRun (g : Ctl.Graph Int) : Ctl.St Int → List (Ctl.Op Int) → List J
+  | _, [] => []
+  | s, o :: os => let s' := Ctl.step g s o; ctlSnap g s' :: ctlRun g s' os
+
 def handle (cmd : String) (j : J) : Except String J :=
   match cmd with
+  | "ctl" => do
+    let g ← (← j.get "defns").toListOf parseDefn
+    let s0 ← (← j.get "settings").toListOf J.toInt
+    let ops ← (← j.get "ops").toListOf parseCtlOp
+    let st := Ctl.init g (fun i => s0.getD i 0)
+    pure (J.obj [("init", ctlSnap g st), ("steps", J.arr (ctlRun g st ops))])
   | "hist" => do
     let g ← parseGraph (← j.get "graph")
     let x0 ← (← j.get "x0").toListOf J.toInt
